@@ -411,8 +411,9 @@ class MappingSchema(AbstractMappingSchema, Schema):
 
         nested_set(self.mapping, tuple(reversed(parts)), normalized_column_mapping)
         new_trie([parts], self.mapping_trie)
-        self._find_cache.pop((normalized_table, True), None)
-        self._find_cache.pop((normalized_table, False), None)
+        # Partially qualified lookups resolve through the trie, so a new table can change
+        # (e.g. make ambiguous) the answer for keys other than the table being added.
+        self._find_cache.clear()
 
     def column_names(
         self,
